@@ -515,6 +515,26 @@ func overLimitMutants(c *chain.Chain, s *chain.Step, fs *flat.State, rng *rand.R
 			return true
 		})
 	}
+	if body0.BlobKZGCommitments != nil && uint64(spec.MAX_BLOBS_PER_BLOCK) < uint64(spec.MAX_BLOB_COMMITMENTS_PER_BLOCK) {
+		// deneb: one commitment more than MAX_BLOBS_PER_BLOCK, and as many as the list type admits; the engine says valid
+		for _, target := range []uint64{uint64(spec.MAX_BLOBS_PER_BLOCK) + 1, uint64(spec.MAX_BLOB_COMMITMENTS_PER_BLOCK)} {
+			target := target
+			if target > 64 {
+				continue
+			}
+			add(fmt.Sprintf("blob_kzg_commitments:%d>MAX_BLOBS_PER_BLOCK(engine-valid)", target), "payload.blob_commitments_limit", func(b *chain.SignedBlock, body chain.BodyRef) bool {
+				k := body.BlobKZGCommitments
+				for i := 0; uint64(len(*k)) < target; i++ {
+					cm := common.KZGCommitment{0xc0}
+					if len(*k) > 0 {
+						cm = (*k)[i%len(*k)]
+					}
+					*k = append(*k, cm)
+				}
+				return true
+			})
+		}
+	}
 	if body0.BLSChanges != nil {
 		add("bls_to_execution_changes:max+1-all-valid", "limits.bls_changes", func(b *chain.SignedBlock, body chain.BodyRef) bool {
 			has := map[common.ValidatorIndex]bool{}
@@ -537,6 +557,32 @@ func overLimitMutants(c *chain.Chain, s *chain.Step, fs *flat.State, rng *rand.R
 		})
 	}
 	return out
+}
+
+// secondBlockVariant: block processing applied to the state AFTER the step's block (latest_block_header is that block's
+// header, state root still zero) with a SECOND block of the same slot: the slot's proposer, parent_root =
+// hash_tree_root(latest_block_header), the same randao reveal / eth1 vote / sync aggregate (all valid again), no
+// operations. The specification refuses it by `block.slot > state.latest_block_header.slot` alone. Only where the
+// post-state has no pending deposits (a block would have to carry them) and the fork has no execution payload.
+func secondBlockVariant(c *chain.Chain, spec *common.Spec, s *chain.Step) []blockVariant {
+	if s.Post == nil || s.Fork > chain.Altair {
+		return nil
+	}
+	ps, err := flat.From(spec, s.Post)
+	if err != nil || ps.Eth1Data.DepositCount != ps.Eth1DepositIndex {
+		return nil
+	}
+	latest, err := s.Post.LatestBlockHeader()
+	if err != nil {
+		return nil
+	}
+	b := s.Block.Clone(spec)
+	*b.Header().ParentRoot = latest.HashTreeRoot(tree.GetHashFn())
+	body := b.Body()
+	*body.ProposerSlashings, *body.AttesterSlashings, *body.Attestations = nil, nil, nil
+	*body.Deposits, *body.VoluntaryExits = nil, nil
+	c.SignBlock(b, s.Post)
+	return []blockVariant{{"pre-state:after-the-block+second-block-at-the-same-slot", "header.not_newer_than_latest", ps, b}}
 }
 
 // validEdits: the step's block with a payload field moved to a boundary of its type, still valid (the state root is
